@@ -2767,9 +2767,19 @@ func (ir *iteratorRecord) iterate(step func(Value)) {
 			step(value)
 		})
 		if ret != nil {
-			_ = tryFunc(func() {
+			if asUncatchableException(ret) != nil {
+				// interrupt / stack overflow: no script code (the iterator's return() method) must run
+				ir.close()
+				panic(ret)
+			}
+			ret1 := tryFunc(func() {
 				ir.returnIter()
 			})
+			// IteratorClose ignores an exception thrown by return() when the completion is already a throw, but
+			// an uncatchable one (interrupt, stack overflow) must reach the host
+			if ret1 != nil && asUncatchableException(ret1) != nil {
+				panic(ret1)
+			}
 			panic(ret)
 		}
 	}
